@@ -1011,10 +1011,12 @@ Section Attrib.
       destruct d as [|l|tn flds|items|].
       + destruct t as [n|it|t']; [| |eapply HN; [reflexivity|exact H]]; inversion H; subst; constructor.
       + destruct t as [n|it|t']; [|eapply HR; [|exact H]; discriminate|eapply HN; [reflexivity|exact H]].
-        destruct (lookup_type s n) as [[sc|vals|ofs ifs|ifs|ms|idefs ioo]|];
+        destruct (lookup_type s n) as [[sc|vals|ofs ifs|ifs|ms|idefs ioo]|] eqn:El;
           try (eapply HR; [|exact H]; discriminate).
         * destruct (complete_leaf (TScalar sc) l); [inversion H; subst; constructor | eapply HR; [|exact H]; discriminate].
         * destruct (complete_leaf (TEnum vals) l); [inversion H; subst; constructor | eapply HR; [|exact H]; discriminate].
+        * assert (Ho : is_object s n = true) by (unfold is_object; rewrite El; reflexivity).
+          eapply HO; [reflexivity | apply runtime_self; exact Ho | exact Ho | exact H].
       + destruct t as [n|it|t']; [|eapply HR; [|exact H]; discriminate|eapply HN; [reflexivity|exact H]].
         destruct (lookup_type s n) as [[sc|vals|ofs ifs|ifs|ms|idefs ioo]|] eqn:El;
           try (eapply HR; [|exact H]; discriminate).
@@ -1027,7 +1029,10 @@ Section Attrib.
           apply andb_true_iff in Ep. destruct Ep as [Ho Hp].
           eapply HO; [reflexivity | | exact Ho | exact H]. unfold runtime_of_b. rewrite Ho, Hp. apply orb_true_r.
       + destruct t as [n|it|t']; [| |eapply HN; [reflexivity|exact H]].
-        * destruct (lookup_type s n) as [[sc|vals|ofs ifs|ifs|ms|idefs ioo]|]; eapply HR; try exact H; discriminate.
+        * destruct (lookup_type s n) as [[sc|vals|ofs ifs|ifs|ms|idefs ioo]|] eqn:El;
+            try (eapply HR; [|exact H]; discriminate).
+          assert (Ho : is_object s n = true) by (unfold is_object; rewrite El; reflexivity).
+          eapply HO; [reflexivity | apply runtime_self; exact Ho | exact Ho | exact H].
         * destruct (complete_items (fun x => option_map (catch it) (complete s frags cv f it sels x)) items O)
             as [[[r0 es0] cs0]|] eqn:Ei; [|discriminate].
           assert (Hn : noargs es0).
